@@ -77,7 +77,7 @@ def make_array(kind, vals):
         return np.array([np.datetime64("NaT") if v is None else np.datetime64(v, "us") for v in vals], dtype="M8[us]")
     if kind == "timedelta":
         return np.array([np.timedelta64("NaT") if v is None else np.timedelta64(v, "s") for v in vals], dtype="m8[s]")
-    if kind in ("objint", "objstr"):
+    if kind in ("objint", "objstr", "objbool"):
         a = np.empty(len(vals), dtype=object)
         for i, v in enumerate(vals):
             a[i] = v
@@ -99,7 +99,7 @@ def is_na_val(kind, v):
         return v == "nan"
     if kind in ("str", "strlong", "ustr"):
         return v == ""
-    if kind in ("date", "datetime", "timedelta", "objint", "objstr"):
+    if kind in ("date", "datetime", "timedelta", "objint", "objstr", "objbool"):
         return v is None
     return False
 
